@@ -190,6 +190,45 @@ def modfunc(ex, state, mod, name, args, kw, line):
         return call_contract(ex, state, 'fn:' + name, args, kw, line)
     if mod == 'np.linalg' and name == 'norm':
         return SNum('norm', nonneg=z3.BoolVal(True))
+    if mod in ('lin', 'linalg', 'sp.linalg', 'splin') and name in ('eig', 'eigh', 'eigs'):
+        a = npmodel.need_rank(ex, state, args[0], line)
+        if len(a.shape) != 2:
+            raise Unsupported('%s of a non-matrix at line %d' % (name, line))
+        n = a.shape[0]
+        ctx.oblige(state, 'eig-square', line, a.shape[0] == a.shape[1], 'expected a square matrix')
+        b = kw.get('b', kw.get('M'))
+        if isinstance(b, SOpt):
+            raise Unsupported('Optional second matrix of %s at line %d' % (name, line))
+        if isinstance(b, SArr):
+            b = npmodel.need_rank(ex, state, b, line)
+            ctx.oblige(state, 'eig-second-matrix-shape', line, z3.And(b.shape[0] == n, b.shape[1] == n) if len(b.shape) == 2 else False,
+                       'the second matrix of a generalized eigenvalue problem must have the shape of the first')
+        if kw.get('overwrite_a') is True:
+            ex.write_buffer(a.buf, state, line, 'LAPACK overwrite_a=True')
+        if kw.get('overwrite_b') is True and isinstance(b, SArr):
+            ex.write_buffer(b.buf, state, line, 'LAPACK overwrite_b=True')
+        if name == 'eig':
+            k, cx = n, z3.BoolVal(True)
+        elif name == 'eigh':
+            sub = kw.get('subset_by_index')
+            if sub is None:
+                k = n
+            else:
+                lo, hi = (sub.items if isinstance(sub, SList) else sub)
+                ctx.oblige(state, 'eigh-subset', line, z3.And(zi(lo) >= 0, zi(lo) <= zi(hi), zi(hi) < n), 'subset_by_index must satisfy 0 <= lo <= hi < n')
+                k = z3.simplify(zi(hi) - zi(lo) + 1)
+            cx = a.cplx
+        else:
+            k = zi(kw.get('k', 6))
+            # ARPACK: 0 < k < n - 1 for a dense non-symmetric problem
+            ctx.oblige(state, 'eigs-k-range', line, z3.And(k >= 1, k < n - 1), 'scipy.sparse.linalg.eigs needs 0 < k < n - 1')
+            v0 = kw.get('v0')
+            if isinstance(v0, SArr):
+                ctx.oblige(state, 'eigs-v0-shape', line, v0.shape[0] == n if len(v0.shape) == 1 else False, 'starting vector has the wrong length')
+            cx = z3.BoolVal(True)
+        w = npmodel.new_arr(state, [k], False if name == 'eigh' else True)
+        v = npmodel.new_arr(state, [n, k], cx)
+        return SList(state.alloc(), None, items=[w, v])
     if mod in ('linalg', 'lin', 'sp.linalg') and name == 'expm':
         a = npmodel.need_rank(ex, state, args[0], line)
         if len(a.shape) != 2:
@@ -348,6 +387,14 @@ def modfunc(ex, state, mod, name, args, kw, line):
         nd = as_conc(kw.get('ndmin', 1))
         if isinstance(a0, SList) and a0.items is not None and len(a0.items) == 1 and is_conc_int(a0.items[0]) and nd is not None:
             return npmodel.new_arr(state, [1] * nd, False)
+        if isinstance(a0, SList) and 'ndmin' not in kw:
+            # np.array(<list of numbers>): a vector of that length
+            try:
+                sample = a0.items[0] if a0.items else (a0.fn(z3.IntVal(0)) if a0.items is None else None)
+            except Exception:
+                sample = None
+            if sample is None or isinstance(sample, (SNum, SInf, int, float)) or isinstance(sample, z3.ArithRef):
+                return npmodel.new_arr(state, [a0.len_term()], False)
         raise Unsupported('np.array at line %d' % line)
     if name == 'sum':
         a = args[0]
@@ -356,8 +403,25 @@ def modfunc(ex, state, mod, name, args, kw, line):
         if c is None:
             return SNum('sum', cplx=a.cplx)
         return npmodel.new_arr(state, [s for k, s in enumerate(a.shape) if k != c], a.cplx)
-    if name == 'max':
+    if name in ('max', 'amax'):
+        a = args[0]
+        if isinstance(a, SArr) and 'axis' not in kw and len(args) == 1:
+            # numpy raises ValueError for a zero-size array
+            ctx.oblige(state, 'max-of-nonempty', line, z3.And(*[x >= 1 for x in npmodel.need_rank(ex, state, a, line).shape]), 'zero-size array to reduction operation maximum')
         return SNum('max')
+    if name == 'vstack':
+        parts = args[0].items if isinstance(args[0], SList) else list(args[0])
+        rows, cols, cx = z3.IntVal(0), None, z3.BoolVal(False)
+        for x in parts:
+            x = npmodel.need_rank(ex, state, x, line)
+            r, c = (x.shape[0], x.shape[1]) if len(x.shape) == 2 else (z3.IntVal(1), x.shape[0]) if len(x.shape) == 1 else (None, None)
+            if r is None:
+                raise Unsupported('vstack of arrays with more than two axes at line %d' % line)
+            if cols is not None:
+                ctx.oblige(state, 'vstack-shape', line, cols == c, 'all the input array dimensions except for the concatenation axis must match')
+            cols = c if cols is None else cols
+            rows, cx = rows + r, z3.Or(cx, x.cplx)
+        return npmodel.new_arr(state, [z3.simplify(rows), cols], z3.simplify(cx))
     if name == 'append':
         a, b = args[0], args[1]
         axis = as_conc(kw.get('axis'))
@@ -413,7 +477,10 @@ def prod_instance(lst, a, b):
     """ground instances of the definition of P = prod(lst[a:b]) (no quantified axioms: they make sat-queries diverge)"""
     P = prod_fun(lst)
     a, b = zi(a), zi(b)
-    return [P(a, a) == 1, z3.Implies(b > a, P(a, b) == P(a, b - 1) * zi(lst.fn(b - 1))), z3.Implies(b <= a, P(a, b) == 1), P(a, b) >= 0]
+    from vt.e1.symexec import FA
+    return [P(a, a) == 1, z3.Implies(b > a, P(a, b) == P(a, b - 1) * zi(lst.fn(b - 1))), z3.Implies(b <= a, P(a, b) == 1), P(a, b) >= 0,
+            # lemma L-prod-pos (induction over the slice, not done by the solver): a product of positive integers is positive
+            z3.Implies(FA(a, b, lambda j: zi(lst.fn(j)) >= 1), P(a, b) >= 1)]
 
 
 def prod_range(ex, state, lst, a, b, line):
@@ -426,6 +493,8 @@ def prod_range(ex, state, lst, a, b, line):
     state.assume(z3.Implies(b > a, P(a, b) == P(a, b - 1) * zi(f(b - 1))))
     state.assume(z3.Implies(b <= a, P(a, b) == 1))
     state.assume(P(a, b) >= 0)
+    from vt.e1.symexec import FA
+    state.assume(z3.Implies(FA(a, b, lambda j: zi(f(j)) >= 1), P(a, b) >= 1))      # lemma L-prod-pos
     return P(a, b)
 
 
@@ -504,6 +573,13 @@ def method(ex, state, obj, name, args, kw, line, node):
             return npmodel.conj(ex, state, obj, line)
         if name == 'flatten':
             return npmodel.new_arr(state, [npmodel.prod(obj.shape)], obj.cplx)
+        if name == 'argsort':
+            o = npmodel.need_rank(ex, state, obj, line)
+            if len(o.shape) != 1:
+                raise Unsupported('argsort of a non-vector at line %d' % line)
+            r = npmodel.new_arr(state, [o.shape[0]], False, kind='int')
+            r.ubound = o.shape[0]          # a permutation of range(n): every value is < n
+            return r
         if name == 'astype':
             return npmodel.new_arr(state, obj.shape, z3.BoolVal(args[0] == 'complex') if isinstance(args[0], str) else obj.cplx)
         raise Unsupported('ndarray.%s at line %d' % (name, line))
